@@ -20,8 +20,12 @@ Proof.
       try (match type of H with match comp n ?X cnt with _ => _ end = _ =>
              destruct (comp n X cnt) as [[c1 k1]|] eqn:E1; [|discriminate]; rewrite (IH _ _ _ E1);
              destruct (comp n y k1) as [[c2 k2]|] eqn:E2; [|discriminate]; rewrite (IH _ _ _ E2); exact H end).
-    match type of H with match comp n ?X ?c with _ => _ end = _ =>
-      destruct (comp n X c) as [[c1 k1]|] eqn:E1; [|discriminate]; rewrite (IH _ _ _ E1); exact H end.
+    destruct (tcut c).
+    + match type of H with match comp n ?X ?c0 with _ => _ end = _ =>
+        destruct (comp n X c0) as [[c1 k1]|] eqn:E1; [|discriminate]; rewrite (IH _ _ _ E1) end.
+      destruct (comp n y k1) as [[c2 k2]|] eqn:E2; [|discriminate]. rewrite (IH _ _ _ E2). exact H.
+    + match type of H with match comp n ?X ?c0 with _ => _ end = _ =>
+        destruct (comp n X c0) as [[c1 k1]|] eqn:E1; [|discriminate]; rewrite (IH _ _ _ E1); exact H end.
 Qed.
 
 Lemma comp_mono n m b cnt r : comp n b cnt = Some r -> n <= m -> comp m b cnt = Some r.
@@ -52,27 +56,65 @@ Qed.
 Lemma total_mark n l t : total_at n t -> total_at (S n) (BAnd (BMark l) t).
 Proof. intros T cnt. cbn [comp]. specialize (T cnt). destruct (comp n t cnt) as [[c k]|]; [discriminate|congruence]. Qed.
 
+Lemma fuel_and_or_plain x y k : isif x = false -> fuel_and (BOr x y) k = S (S (max (fuel_and x k) (fuel_and y k))).
+Proof. intros H. destruct x; try reflexivity. discriminate. Qed.
+
+Lemma fuel_and_loc m a : forall k, fuel_and (loc m a) k = fuel_and a k.
+Proof.
+  induction a as [f ar| | | |l|a b IHa IHb|a b Hif IHa IHb|c t e IHc IHt IHe|c t IHc IHt|a IHa] using body_ind'; intros k.
+  - reflexivity.
+  - reflexivity.
+  - reflexivity.
+  - reflexivity.
+  - reflexivity.
+  - cbn [loc fuel_and]. rewrite IHb, IHa. reflexivity.
+  - cbn [loc]. rewrite fuel_and_or_plain by (destruct a; try reflexivity; discriminate).
+    rewrite fuel_and_or_plain by exact Hif. rewrite IHa, IHb. reflexivity.
+  - cbn [loc fuel_and]. rewrite IHt, IHe. reflexivity.
+  - cbn [loc fuel_and]. rewrite IHt. reflexivity.
+  - reflexivity.
+Qed.
+
 (* (c -> T ; E) at top level, for continuation-extended T and E *)
-Lemma total_ite n c T E : and_total c -> total_at n T -> total_at (max (fuel_and c (S n)) 0) T \/ True ->
+Lemma total_ite n c T E : and_total c -> (forall m, and_total (loc m c)) -> total_at n T ->
   forall m, total_at m E ->
   total_at (S (S (max (fuel_and c (S n)) m))) (BOr (BIf c T) E).
 Proof.
-  intros Ac TT _ m TE cnt.
+  intros Ac Al TT m TE cnt.
   set (M := max (fuel_and c (S n)) m).
-  assert (T1: total_at M (BAnd c (BAnd (BMark (S cnt)) T))).
-  { eapply total_mono; [apply Ac; apply total_mark; exact TT|unfold M; lia]. }
   assert (T2: total_at M E) by (eapply total_mono; [exact TE|unfold M; lia]).
-  pose proof (@total_or_plain M (BAnd c (BAnd (BMark (S cnt)) T)) E eq_refl T1 T2 (S cnt)) as H.
-  change (comp (S (S M)) (BOr (BIf c T) E) cnt) with
-    (match comp (S M) (BOr (BAnd c (BAnd (BMark (S cnt)) T)) E) (S cnt) with
-     | Some (code,k) => Some ([SBlock (S cnt) code],k) | None => None end).
-  destruct (comp (S M) (BOr (BAnd c (BAnd (BMark (S cnt)) T)) E) (S cnt)) as [[code k]|]; [discriminate|congruence].
+  destruct (tcut c) eqn:Tc.
+  - assert (T1: total_at (S M) (BAnd (loc (S (S cnt)) c) (BAnd (BMark (S cnt)) T))).
+    { eapply total_mono; [apply Al; apply total_mark; exact TT|rewrite fuel_and_loc; unfold M; lia]. }
+    change (comp (S (S M)) (BOr (BIf c T) E) cnt) with
+      (if tcut c then
+         match comp (S M) (BAnd (loc (S (S cnt)) c) (BAnd (BMark (S cnt)) T)) (S (S cnt)) with
+         | Some (c1,k1) => match comp (S M) E k1 with Some (c2,k2) => Some ([SBlock (S cnt) ([SBlock (S (S cnt)) c1] ++ c2)],k2) | None => None end
+         | None => None end
+       else match comp (S M) (BOr (BAnd c (BAnd (BMark (S cnt)) T)) E) (S cnt) with
+            | Some (code,k) => Some ([SBlock (S cnt) code],k) | None => None end).
+    rewrite Tc. specialize (T1 (S (S cnt))).
+    destruct (comp (S M) (BAnd (loc (S (S cnt)) c) (BAnd (BMark (S cnt)) T)) (S (S cnt))) as [[c1 k1]|]; [|congruence].
+    pose proof (total_mono _ _ _ T2 (Nat.le_succ_diag_r M) k1) as T3.
+    destruct (comp (S M) E k1) as [[c2 k2]|]; [discriminate|congruence].
+  - assert (T1: total_at M (BAnd c (BAnd (BMark (S cnt)) T))).
+    { eapply total_mono; [apply Ac; apply total_mark; exact TT|unfold M; lia]. }
+    pose proof (@total_or_plain M (BAnd c (BAnd (BMark (S cnt)) T)) E eq_refl T1 T2 (S cnt)) as H.
+    change (comp (S (S M)) (BOr (BIf c T) E) cnt) with
+      (if tcut c then
+         match comp (S M) (BAnd (loc (S (S cnt)) c) (BAnd (BMark (S cnt)) T)) (S (S cnt)) with
+         | Some (c1,k1) => match comp (S M) E k1 with Some (c2,k2) => Some ([SBlock (S cnt) ([SBlock (S (S cnt)) c1] ++ c2)],k2) | None => None end
+         | None => None end
+       else match comp (S M) (BOr (BAnd c (BAnd (BMark (S cnt)) T)) E) (S cnt) with
+            | Some (code,k) => Some ([SBlock (S cnt) code],k) | None => None end).
+    rewrite Tc.
+    destruct (comp (S M) (BOr (BAnd c (BAnd (BMark (S cnt)) T)) E) (S cnt)) as [[code k]|]; [discriminate|congruence].
 Qed.
 
-Lemma and_total_ite c t e : and_total c -> and_total t -> and_total e -> and_total (BOr (BIf c t) e).
+Lemma and_total_ite c t e : and_total c -> (forall m, and_total (loc m c)) -> and_total t -> and_total e -> and_total (BOr (BIf c t) e).
 Proof.
-  intros Ac At Ae K k TK cnt. cbn [fuel_and comp].
-  pose proof (@total_ite (fuel_and t k) c (BAnd t K) (BAnd e K) Ac (At K k TK) (or_intror Logic.I) (fuel_and e k) (Ae K k TK) cnt) as H.
+  intros Ac Al At Ae K k TK cnt. cbn [fuel_and comp].
+  pose proof (@total_ite (fuel_and t k) c (BAnd t K) (BAnd e K) Ac Al (At K k TK) (fuel_and e k) (Ae K k TK) cnt) as H.
   exact H.
 Qed.
 
@@ -81,30 +123,45 @@ Proof. intros K k TK cnt. cbn [fuel_and comp]. discriminate. Qed.
 Lemma and_total_true : and_total BTrue.
 Proof. intros K k TK cnt. cbn [fuel_and comp]. apply TK. Qed.
 
-Theorem and_total_all : forall a, and_total a.
+Theorem and_total_both : forall a, and_total a /\ forall m, and_total (loc m a).
 Proof.
-  induction a using body_ind'.
-  - intros K k TK cnt. cbn [fuel_and comp]. specialize (TK cnt). destruct (comp k K cnt) as [[c k0]|]; [discriminate|congruence].
-  - apply and_total_true.
-  - apply and_total_fail.
-  - intros K k TK cnt. cbn [fuel_and comp]. specialize (TK cnt). destruct (comp k K cnt) as [[c k0]|]; [discriminate|congruence].
-  - intros K k TK cnt. cbn [fuel_and comp]. specialize (TK cnt). destruct (comp k K cnt) as [[c k0]|]; [discriminate|congruence].
-  - (* BAnd *) intros K k TK cnt. cbn [fuel_and comp]. apply IHa1. apply IHa2. exact TK.
-  - (* plain BOr *) intros K k TK cnt.
-    assert (F: fuel_and (BOr a1 a2) k = S (S (max (fuel_and a1 k) (fuel_and a2 k)))).
-    { destruct a1; try reflexivity. discriminate. }
-    rewrite F.
-    assert (E: forall n, comp (S n) (BAnd (BOr a1 a2) K) cnt = comp n (BOr (BAnd a1 K) (BAnd a2 K)) cnt).
-    { intros n. destruct a1; try reflexivity. discriminate. }
-    rewrite E. apply total_or_plain; [reflexivity| |].
-    + eapply total_mono; [apply IHa1; exact TK|lia].
-    + eapply total_mono; [apply IHa2; exact TK|lia].
-  - (* if-then-else *) apply and_total_ite; assumption.
-  - (* BIf *) intros K k TK cnt. cbn [fuel_and comp].
-    pose proof (@and_total_ite a1 a2 BFail IHa1 IHa2 and_total_fail K k TK cnt) as H. cbn [fuel_and] in H. exact H.
-  - (* BNot *) intros K k TK cnt. cbn [fuel_and comp].
-    pose proof (@and_total_ite a BFail BTrue IHa and_total_fail and_total_true K k TK cnt) as H. cbn [fuel_and] in H. exact H.
+  induction a as [f ar| | | |l|a b IHa IHb|a b Hif IHa IHb|c t e IHc IHt IHe|c t IHc IHt|a IHa] using body_ind'.
+  - split; [|intros m]; intros K k TK cnt; cbn [loc fuel_and comp]; specialize (TK cnt); destruct (comp k K cnt) as [[c k0]|]; try discriminate; congruence.
+  - split; [|intros m]; apply and_total_true.
+  - split; [|intros m]; apply and_total_fail.
+  - split; [|intros m]; intros K k TK cnt; cbn [loc fuel_and comp]; specialize (TK cnt); destruct (comp k K cnt) as [[c k0]|]; try discriminate; congruence.
+  - split; [|intros m]; intros K k TK cnt; cbn [loc fuel_and comp]; specialize (TK cnt); destruct (comp k K cnt) as [[c k0]|]; try discriminate; congruence.
+  - (* BAnd *) destruct IHa as [A1 A2], IHb as [B1 B2]. split; [|intros m]; intros K k TK cnt; cbn [loc fuel_and comp].
+    + apply A1. apply B1. exact TK.
+    + apply A2. apply B2. exact TK.
+  - (* plain BOr *) destruct IHa as [A1 A2], IHb as [B1 B2].
+    assert (G: forall x y, isif x = false -> and_total x -> and_total y -> and_total (BOr x y)).
+    { intros x y Hx Tx Ty K k TK cnt.
+      assert (F: fuel_and (BOr x y) k = S (S (max (fuel_and x k) (fuel_and y k)))).
+      { destruct x; try reflexivity. discriminate. }
+      rewrite F.
+      assert (E: forall n, comp (S n) (BAnd (BOr x y) K) cnt = comp n (BOr (BAnd x K) (BAnd y K)) cnt).
+      { intros n. destruct x; try reflexivity. discriminate. }
+      rewrite E. apply total_or_plain; [reflexivity| |].
+      + eapply total_mono; [apply Tx; exact TK|lia].
+      + eapply total_mono; [apply Ty; exact TK|lia]. }
+    split; [apply G; assumption|]. intros m. cbn [loc]. apply G; [rewrite <- Hif; destruct a; reflexivity|apply A2|apply B2].
+  - (* if-then-else *) destruct IHc as [C1 C2], IHt as [T1 T2], IHe as [E1 E2].
+    split; [apply and_total_ite; assumption|]. intros m. cbn [loc]. apply and_total_ite; auto.
+  - (* BIf *) destruct IHc as [C1 C2], IHt as [T1 T2].
+    assert (G: forall t', and_total t' -> and_total (BIf c t')).
+    { intros t' Tt K k TK cnt. cbn [fuel_and comp].
+      pose proof (@and_total_ite c t' BFail C1 C2 Tt and_total_fail K k TK cnt) as H. cbn [fuel_and] in H. exact H. }
+    split; [apply G; exact T1|intros m; cbn [loc]; apply G; apply T2].
+  - (* BNot *) destruct IHa as [A1 A2].
+    assert (G: and_total (BNot a)).
+    { intros K k TK cnt. cbn [fuel_and comp].
+      pose proof (@and_total_ite a BFail BTrue A1 A2 and_total_fail and_total_true K k TK cnt) as H. cbn [fuel_and] in H. exact H. }
+    split; [exact G|intros m; exact G].
 Qed.
+
+Theorem and_total_all : forall a, and_total a.
+Proof. intros a. apply and_total_both. Qed.
 
 Lemma total_true : total_at 1 BTrue.
 Proof. intros cnt. cbn [comp]. discriminate. Qed.
@@ -126,7 +183,7 @@ Proof.
     { destruct b1; try reflexivity. discriminate. }
     rewrite F. apply total_or_plain; [assumption| |]; (eapply total_mono; [eassumption|lia]).
   - cbn [fuel_body].
-    apply (@total_ite (fuel_body b2) b1 b2 b3 (and_total_all b1) IHb2 (or_intror Logic.I) (fuel_body b3) IHb3).
+    apply (@total_ite (fuel_body b2) b1 b2 b3 (and_total_all b1) (fun m => proj2 (and_total_both b1) m) IHb2 (fuel_body b3) IHb3).
   - apply total_leaf. reflexivity.
   - apply total_leaf. reflexivity.
 Qed.
